@@ -24,27 +24,28 @@ def chain(rng, n, ring=False):
     return [("H", (0.0, 0.0, round(k * d + rng.uniform(-0.08, 0.08), 4))) for k in range(n)]
 
 
-def direct_energy(geom, solver, charge=0, spin=0, frozen=None):
+def direct_energy(geom, solver, charge=0, spin=0, frozen=None, basis="sto-3g"):
     from tangelo import SecondQuantizedMolecule
     from tangelo.algorithms.classical import FCISolver, CCSDSolver
     with warnings.catch_warnings():
         warnings.simplefilter("ignore")
-        mol = SecondQuantizedMolecule(geom, q=charge, spin=spin, basis="sto-3g", frozen_orbitals=frozen)
+        mol = SecondQuantizedMolecule(geom, q=charge, spin=spin, basis=basis, frozen_orbitals=frozen)
         if solver == "HF":
             return float(mol.mf_energy)
         return float({"FCI": FCISolver, "CCSD": CCSDSolver}[solver](mol).simulate())
 
 
-def oniom_case(ctx, rng):
+def oniom_case(ctx, rng, force=None):
+    """force = (kind, basis): a 4-atom hydrogen chain with ONE options dictionary shared by all slots"""
     from tangelo.problem_decomposition.oniom.oniom_problem_decomposition import ONIOMProblemDecomposition
     from tangelo.problem_decomposition.oniom._helpers.helper_classes import Fragment, Link
-    kind = rng.choice(["same_levels", "same_levels", "whole_model", "whole_model_list"])
-    if rng.random() < 0.3:
+    kind = force[0] if force else rng.choice(["same_levels", "same_levels", "whole_model", "whole_model_list"])
+    if rng.random() < 0.3 and not force:
         geom = [("Li", (0.0, 0.0, 0.0)), ("H", (0.0, 0.0, round(rng.uniform(1.5, 1.7), 3))), ("H", (0.0, 3.0, 0.3)), ("H", (0.0, 3.0, round(rng.uniform(1.0, 1.1), 3)))]
         model_atoms = rng.choice([[0, 1], [1, 0], [2, 3], 2])
         frozen = rng.choice([None, [0], [0, 5]]) if model_atoms in ([0, 1], [1, 0], 2) else None
     else:
-        n = rng.choice([4, 4, 6])
+        n = 4 if force else rng.choice([4, 4, 6])
         geom = chain(rng, n)
         k = rng.choice([2, 4]) if n == 6 else 2
         start = rng.choice(range(0, n - k + 1, 2))
@@ -56,10 +57,22 @@ def oniom_case(ctx, rng):
         frozen = None
     low = rng.choice(["HF", "CCSD"])
     high = rng.choice(["CCSD", "FCI"])
-    case = {"kind": "oniom", "sub": kind, "geom": [[a, list(p)] for a, p in geom], "model": model_atoms, "low": low, "high": high, "frozen": frozen}
+    # a non-default basis for the 4-atom hydrogen chains, and - in 40% of the cases - ONE options dictionary object handed
+    # to every slot that takes the same options (the caller's dictionary belongs to the caller)
+    basis = rng.choice(["sto-3g", "3-21g"]) if (geom[0][0] == "H" and len(geom) == 4) else "sto-3g"
+    shared = rng.random() < 0.4
+    if force:
+        basis, shared = force[1], True
+    case = {"kind": "oniom", "sub": kind, "geom": [[a, list(p)] for a, p in geom], "model": model_atoms, "low": low, "high": high, "frozen": frozen,
+            "basis": basis, "shared_options": shared}
     ctx.case(case, nontrivial=True, sample=len(geom) == 4)
     ctx.count(f"oniom:{kind}")
-    lvl = lambda: ({"basis": "sto-3g", "frozen_orbitals": frozen} if frozen else {"basis": "sto-3g"})
+    ctx.count(f"oniom:basis={basis}:shared={shared}")
+    one_plain = {"basis": basis}
+    one_lvl = {"basis": basis, "frozen_orbitals": frozen} if frozen else one_plain
+    plain = (lambda: one_plain) if shared else (lambda: {"basis": basis})
+    lvl = (lambda: one_lvl) if shared else (lambda: ({"basis": basis, "frozen_orbitals": frozen} if frozen else {"basis": basis}))
+    keep_plain, keep_lvl = dict(one_plain), dict(one_lvl)
     with warnings.catch_warnings():
         warnings.simplefilter("ignore")
         if kind == "same_levels":
@@ -73,26 +86,30 @@ def oniom_case(ctx, rng):
                 links = [Link(i, o, round(rng.uniform(0.5, 1.2), 3), "H") for i, o in nb]
                 if len(links) % 2 == 1:
                     links = None            # odd number of caps changes the electron parity of the model
-            system = Fragment(solver_low=low, options_low={"basis": "sto-3g"})
+            system = Fragment(solver_low=low, options_low=plain())
             model = Fragment(solver_low=x, options_low=lvl(), solver_high=x, options_high=lvl(), selected_atoms=model_atoms, broken_links=links)
             e = ONIOMProblemDecomposition({"geometry": geom, "fragments": [system, model]}).simulate()
-            ref = direct_energy(geom, low)
+            ref = direct_energy(geom, low, basis=basis)
             what = f"model at identical high and low level ({x}, frozen={frozen}, links={bool(links)}): E_ONIOM = {e!r}, E_low(whole system, {low}) = {ref!r}"
         else:
             sel = len(geom) if kind == "whole_model" else rng.sample(range(len(geom)), len(geom))
-            system = Fragment(solver_low=low, options_low={"basis": "sto-3g"})
+            system = Fragment(solver_low=low, options_low=plain())
             fr = frozen if geom[0][0] == "Li" else None
-            opts_h = {"basis": "sto-3g", "frozen_orbitals": fr} if fr else {"basis": "sto-3g"}
-            model = Fragment(solver_low=low, options_low={"basis": "sto-3g"}, solver_high=high, options_high=opts_h, selected_atoms=sel)
+            opts_h = {"basis": basis, "frozen_orbitals": fr} if fr else plain()
+            model = Fragment(solver_low=low, options_low=plain(), solver_high=high, options_high=opts_h, selected_atoms=sel)
             e = ONIOMProblemDecomposition({"geometry": geom, "fragments": [system, model]}).simulate()
             if isinstance(sel, list):
-                ref = direct_energy([geom[i] for i in sel], high, frozen=fr)
+                ref = direct_energy([geom[i] for i in sel], high, frozen=fr, basis=basis)
             else:
-                ref = direct_energy(geom, high, frozen=fr)
+                ref = direct_energy(geom, high, frozen=fr, basis=basis)
             what = f"model = whole system (selected_atoms={sel}): E_ONIOM = {e!r}, E_high(whole system, {high}, frozen={fr}) = {ref!r}"
     if abs(e - ref) > 1e-7:
-        ctx.violation("ONIOM, " + what, case)
+        ctx.violation("ONIOM, " + what + f" (basis {basis}, one shared options dictionary: {shared})", case)
         return False
+    if one_plain != keep_plain or one_lvl != keep_lvl:
+        # not a violation of C15 by itself (the property speaks about energies): counted; the energies of the slots that
+        # share the dictionary are what is judged above
+        ctx.count("oniom:caller-options-modified")
     return True
 
 
@@ -326,6 +343,8 @@ def run(ctx):
     ok = True
     for _ in range(ctx.n(5, 40)):
         ok &= oniom_case(ctx, rng)
+    for kind in ("same_levels", "whole_model", "whole_model_list")[:ctx.n(2, 3)]:
+        ok &= oniom_case(ctx, rng, force=(kind, "3-21g"))
     for _ in range(ctx.n(150, 1500)):
         ok &= link_case(ctx, rng)
     for _ in range(ctx.n(6, 40)):
